@@ -1,13 +1,16 @@
 package main
 
 import (
+	"bytes"
 	"encoding/base64"
 	"encoding/json"
 	"fmt"
+	"html"
 	"net/http"
 	"net/http/httptest"
 	"net/url"
 	"os"
+	"path"
 	"path/filepath"
 	"regexp"
 	"sort"
@@ -16,6 +19,7 @@ import (
 
 	"github.com/tmpim/casket/caskethttp/httpserver"
 	"github.com/tmpim/casket/caskethttp/internalsrv"
+	"github.com/tmpim/casket/caskethttp/staticfiles"
 )
 
 type c03Rule struct {
@@ -38,6 +42,7 @@ type c03In struct {
 	Creds  string   `json:"creds,omitempty"` // none | wrong | right (rule 0) | right1 | right2 (rule 1, 2)
 	AE     string   `json:"ae,omitempty"`
 	XReq   string   `json:"xreq,omitempty"` // X-Accel-Redirect REQUEST header sent by the client
+	Accept string   `json:"accept,omitempty"` // hide: "json" asks browse for its JSON listing
 	// accel (internalsrv.Internal over a scripted inner handler)
 	Script [][2]string `json:"script,omitempty"`
 	W0     string      `json:"w0,omitempty"`
@@ -172,6 +177,13 @@ var c03Prots = map[string]c03Prot{
 	// overlapping scopes without exclusions: either rule's credentials open the inner scope
 	"auth-overlap": {"basicauth /secret u p\nbasicauth /secret/sub v q",
 		[]c03ProtRule{{[]string{"/secret"}, nil, "u", "p"}, {[]string{"/secret/sub"}, nil, "v", "q"}}, nil},
+	// internal locations that are a single file: an index page, a plain file, a precompressed sibling;
+	// a location inside an otherwise public directory; two directives
+	"int-index": {"internal /int/index.html", nil, []string{"/int/index.html"}},
+	"int-file":  {"internal /int/h.txt", nil, []string{"/int/h.txt"}},
+	"int-gz":    {"internal /secret/f.txt.gz", nil, []string{"/secret/f.txt.gz"}},
+	"int-deep":  {"internal /arc/priv", nil, []string{"/arc/priv"}},
+	"int-two":   {"internal /int\ninternal /arc/priv/p.txt\ninternal /secret/pub/deep/x/", nil, []string{"/int", "/arc/priv/p.txt", "/secret/pub/deep/x/"}},
 	// basicauth and internal together, internal with two locations
 	"auth-int": {"basicauth /secret u p {\n exclude /secret/pub\n}\ninternal /int\ninternal /secret/pub/deep",
 		[]c03ProtRule{{[]string{"/secret"}, []string{"/secret/pub"}, "u", "p"}}, []string{"/int", "/secret/pub/deep"}},
@@ -210,6 +222,23 @@ func c03Under(f, base string) bool {
 	return strings.HasPrefix(strings.ToLower(f), strings.ToLower(base))
 }
 func c03Violates(prot c03Prot, creds string, opt bool, f string) bool {
+	return c03ViolKind(prot, creds, opt, f) != ""
+}
+
+// c03ViolKind: "" (no violation), "internal" (f lies under an internal location) or "auth"
+func c03ViolKind(prot c03Prot, creds string, opt bool, f string) string {
+	for _, ip := range prot.ipaths {
+		if c03Under(f, ip) {
+			return "internal"
+		}
+	}
+	if c03ViolatesAuth(prot, creds, opt, f) {
+		return "auth"
+	}
+	return ""
+}
+
+func c03ViolatesAuth(prot c03Prot, creds string, opt bool, f string) bool {
 	user, pw, _ := c03CredPair(creds)
 	protected, satisfied := false, false
 	for _, ru := range prot.rules {
@@ -227,15 +256,7 @@ func c03Violates(prot c03Prot, creds string, opt bool, f string) bool {
 			satisfied = satisfied || (user == ru.user && pw == ru.pw)
 		}
 	}
-	if !opt && protected && !satisfied {
-		return true
-	}
-	for _, ip := range prot.ipaths {
-		if c03Under(f, ip) {
-			return true
-		}
-	}
-	return false
+	return !opt && protected && !satisfied
 }
 
 var c03BackRe = regexp.MustCompile(regexp.QuoteMeta("backend says "+tAPI+" for <<") + "([^>]*)>>")
@@ -334,14 +355,20 @@ func c03Run(in0 interface{}) Result {
 			checked = c03Prot{}
 		}
 		var viol []string
+		byInternal := false
 		for k, f := range leakedRes {
-			if c03Violates(checked, in.Creds, opt, f) {
+			if kind := c03ViolKind(checked, in.Creds, opt, f); kind != "" {
 				viol = append(viol, leaked[k])
+				byInternal = byInternal || kind == "internal"
 			}
 		}
 		sig := "site:" + in.Prot
 		if len(viol) > 0 {
 			sig = c03Sig(in, viol, resp.Header.Get("Content-Type"))
+			if byInternal {
+				// content of an internal location: never one of the basicauth finding classes
+				sig = "site:disclosure:internal-location:" + in.Prot
+			}
 		}
 		return Result{Term: cApp("CDisc", "false", cBool(opt), c03RuleTerms(checked, in.Creds), cStrList(checked.ipaths), cStrList(leakedRes)),
 			Obs: map[string]interface{}{"status": resp.Status, "leaked": leaked, "resources": leakedRes, "violating": viol, "accel": emitted, "len": len(resp.Body), "err": resp.Err, "location": resp.Header.Get("Location")},
@@ -431,6 +458,90 @@ func c03Run(in0 interface{}) Result {
 		return Result{Term: cApp("CAccel", "false", cStrList(in.Paths), cList(sc), cStr(in.W0), cStr(in.P), cStr(in.XReq), cN(uint64(status)), cStrList(seen)),
 			Obs: map[string]interface{}{"status": status, "saw": seen}, Sig: "accel", Direct: direct, Nontrivial: len(seen) != 1,
 			Class: fmt.Sprintf("accel:%d:%d", status, len(seen))}
+	case "hide":
+		// `internal` + browse: what a listing (HTML/JSON) or an archive of a directory names
+		root := c03Fixture()
+		prot, okp := c03Prots[in.Prot]
+		u, perr := url.ParseRequestURI(in.Target)
+		if !okp || perr != nil {
+			return Result{Term: "(CSite false false)", Obs: "unknown prot / unparsable target", Class: "hide:skipped", Sig: "hide:skipped"}
+		}
+		body := "root " + root + "\n" + prot.text + "\n" + strings.Join(in.Extras, "\n") + "\n"
+		st, err := getSite(body)
+		if err != nil {
+			return Result{Term: "(CSite false false)", Obs: "start error: " + err.Error(), Class: "hide:start-error", Sig: "hide:start-error"}
+		}
+		resp, _, _ := c03Do(st.addr, in)
+		d := path.Clean("/" + u.Path)
+		kind, names := c03ListedNames(resp, d)
+		if kind == "" {
+			return Result{Term: "(CSite false false)", Obs: map[string]interface{}{"status": resp.Status, "listing": false}, Sig: "hide:" + in.Prot,
+				Class: fmt.Sprintf("hide:%s:none:%d", in.Prot, resp.Status)}
+		}
+		sig := "hide:" + in.Prot
+		var bad []string
+		for _, n := range names {
+			full := strings.TrimSuffix(d, "/") + "/" + n
+			for _, ip := range prot.ipaths {
+				loc := path.Clean("/" + ip)
+				if full == loc || strings.HasPrefix(full, strings.TrimSuffix(loc, "/")+"/") {
+					bad = append(bad, full)
+				}
+			}
+		}
+		if len(bad) > 0 {
+			sig = "hide:disclosure:internal-location-in-" + kind + "-of-ancestor"
+		}
+		return Result{Term: cApp("CHide", cStrList(prot.ipaths), cStr(u.Path), cBool(kind == "archive"), c03TreeTerm(filepath.Join(root, filepath.FromSlash(d))), cStrList(names)),
+			Obs: map[string]interface{}{"status": resp.Status, "kind": kind, "dir": d, "names": names, "internal": bad}, Sig: sig,
+			Nontrivial: true, Key: body + "|" + in.Target + in.Creds + in.Accept, Class: fmt.Sprintf("hide:%s:%s", in.Prot, kind)}
+	case "serve":
+		// `internal` + the static file server alone: which file's bytes does GET p obtain
+		root := c03Fixture()
+		prot, okp := c03Prots[in.Prot]
+		u, perr := url.ParseRequestURI(in.Target)
+		if !okp || perr != nil || len(prot.rules) > 0 {
+			return Result{Term: "(CSite false false)", Obs: "unknown prot / unparsable target", Class: "serve:skipped", Sig: "serve:skipped"}
+		}
+		body := "root " + root + "\n" + prot.text + "\n" + strings.Join(in.Extras, "\n") + "\n"
+		st, err := getSite(body)
+		if err != nil {
+			return Result{Term: "(CSite false false)", Obs: "start error: " + err.Error(), Class: "serve:start-error", Sig: "serve:start-error"}
+		}
+		in.Method = "GET"
+		resp, _, _ := c03Do(st.addr, in)
+		views := decodedViews(resp.Body)
+		files, dirs, toks := c03FixtureIndex(root)
+		var served []string
+		for _, f := range files {
+			if t := toks[f]; t != "" && containsAny(views, t) {
+				served = append(served, f)
+			}
+		}
+		idx := staticfiles.DefaultIndexPages
+		for _, e := range in.Extras {
+			if strings.HasPrefix(e, "index ") {
+				idx = strings.Fields(e)[1:]
+			}
+		}
+		var exts []string
+		for _, enc := range [][2]string{{"zstd", ".zst"}, {"br", ".br"}, {"gzip", ".gz"}} {
+			for _, a := range strings.Split(in.AE, ",") {
+				if strings.TrimSpace(a) == enc[0] {
+					exts = append(exts, enc[1])
+					break
+				}
+			}
+		}
+		sig := "serve:" + in.Prot
+		for _, f := range served {
+			if c03ViolKind(prot, "none", false, f) != "" {
+				sig = "serve:disclosure:internal-location-served:" + in.Prot
+			}
+		}
+		return Result{Term: cApp("CServe", cStrList(prot.ipaths), cStrList(idx), cStrList(exts), cStrList(files), cStrList(dirs), cStr(u.Path), cStrList(served)),
+			Obs: map[string]interface{}{"status": resp.Status, "served": served, "encoding": resp.Header.Get("Content-Encoding")}, Sig: sig,
+			Nontrivial: len(served) > 0 || resp.Status == 404, Key: body + "|" + in.Target + in.AE, Class: fmt.Sprintf("serve:%s:%d:%d", in.Prot, resp.Status, len(served))}
 	case "assigners":
 		files := c03Assigners()
 		return Result{Term: cApp("CAssigners", cStrList(files)), Obs: files, Sig: "assigners", Nontrivial: true, Class: "assigners"}
@@ -451,6 +562,9 @@ func c03Do(addr string, in *c03In) (rawResp, []string, bool) {
 	if in.XReq != "" {
 		hdr[xar] = in.XReq
 	}
+	if in.Accept == "json" {
+		hdr["Accept"] = "application/json"
+	}
 	c03BackMu.Lock()
 	c03BackSeen, c03BackEmitted = nil, false
 	c03BackMu.Unlock()
@@ -458,6 +572,112 @@ func c03Do(addr string, in *c03In) (rawResp, []string, bool) {
 	c03BackMu.Lock()
 	defer c03BackMu.Unlock()
 	return resp, append([]string(nil), c03BackSeen...), c03BackEmitted
+}
+
+var c03NameRe = regexp.MustCompile(`<span class="name">([^<]*)</span>`)
+var c03MemberRe = regexp.MustCompile("\x00NAME:([^\x00]*)\x00")
+
+// c03ListedNames: is the response a browse listing ("listing") or an archive ("archive"), and which
+// entries does it name (relative to the directory asked for; an archive's top-level folder removed)
+func c03ListedNames(resp rawResp, d string) (string, []string) {
+	if resp.Status != 200 {
+		return "", nil
+	}
+	ct := resp.Header.Get("Content-Type")
+	seen := map[string]bool{}
+	var names []string
+	add := func(n string) {
+		n = strings.Trim(n, "/")
+		if n != "" && !seen[n] {
+			seen[n] = true
+			names = append(names, n)
+		}
+	}
+	switch {
+	case strings.HasPrefix(ct, "application/json"):
+		var items []struct{ Name string }
+		for _, v := range decodedViews(resp.Body) {
+			if json.Unmarshal(v, &items) == nil {
+				for _, it := range items {
+					add(it.Name)
+				}
+				sort.Strings(names)
+				return "listing", names
+			}
+		}
+		return "", nil
+	case strings.HasPrefix(ct, "application/zip") || strings.HasPrefix(ct, "application/tar") || strings.HasPrefix(ct, "application/x-tar"):
+		for _, v := range decodedViews(resp.Body)[1:] {
+			for _, m := range c03MemberRe.FindAllSubmatch(v, -1) {
+				// members are named <base name of the archived directory>/<relative name>; the root has no base name
+				n := strings.Trim(string(m[1]), "/")
+				if top := path.Base(d); d != "/" {
+					if n == top {
+						continue
+					}
+					n = strings.TrimPrefix(n, top+"/")
+				}
+				add(n)
+			}
+		}
+		sort.Strings(names)
+		return "archive", names
+	case strings.HasPrefix(ct, "text/html"):
+		for _, v := range decodedViews(resp.Body) {
+			if bytes.Contains(v, []byte(`<div class="listing">`)) {
+				for _, m := range c03NameRe.FindAllSubmatch(v, -1) {
+					add(html.UnescapeString(string(m[1])))
+				}
+				sort.Strings(names)
+				return "listing", names
+			}
+		}
+	}
+	return "", nil
+}
+
+// c03TreeTerm: what is on disk below dir, as a Coq `list node`
+func c03TreeTerm(dir string) string {
+	ents, err := os.ReadDir(dir)
+	if err != nil {
+		return "[]"
+	}
+	var out []string
+	for _, e := range ents {
+		kids := "[]"
+		if e.IsDir() {
+			kids = c03TreeTerm(filepath.Join(dir, e.Name()))
+		}
+		out = append(out, cApp("Node", cStr(e.Name()), cBool(e.IsDir()), kids))
+	}
+	return cList(out)
+}
+
+// c03FixtureIndex: canonical names of the regular files and directories under root, and the
+// token each file's content carries
+func c03FixtureIndex(root string) (files, dirs []string, toks map[string]string) {
+	toks = map[string]string{"/index.html": tPUBIDX, "/pub/a.txt": tPUBA, "/arc/open.txt": "nothing secret here"}
+	for t, f := range c03TokenRes {
+		if t != tSNAME {
+			toks[f] = t
+		}
+	}
+	filepath.Walk(root, func(p string, info os.FileInfo, err error) error {
+		if err != nil {
+			return nil
+		}
+		rel, _ := filepath.Rel(root, p)
+		c := path.Clean("/" + filepath.ToSlash(rel))
+		if info.IsDir() {
+			dirs = append(dirs, c)
+		} else {
+			files = append(files, c)
+		}
+		return nil
+	})
+	sort.Strings(files)
+	sort.Strings(dirs)
+	return
 }
 
 var c03AssignRe = regexp.MustCompile(`URL\.(Path|RawPath)\s*(=[^=]|\+=)|\br\.URL\s*=[^=]`)
@@ -518,9 +738,9 @@ func c03Sig(in *c03In, leaked []string, ctype string) string {
 
 func c03Gen(r *Rand, tier string) []interface{} {
 	var out []interface{}
-	nM, nA, nS, nC, nX := 1500, 700, 1500, 900, 700
+	nM, nA, nS, nC, nX, nH, nV := 1500, 700, 1500, 900, 700, 600, 500
 	if tier == "thorough" {
-		nM, nA, nS, nC, nX = 30000, 10000, 15000, 9000, 8000
+		nM, nA, nS, nC, nX, nH, nV = 30000, 10000, 15000, 9000, 8000, 6000, 5000
 	}
 	out = append(out, &c03In{Kind: "assigners"})
 	segs := []string{"a", "b", "A", "secret", "pub", ".", "..", "", "x.y", "B"}
@@ -617,6 +837,10 @@ func c03Gen(r *Rand, tier string) []interface{} {
 		"int": {"/int/h.txt", "/int/", "/int", "/int/index.html", "/?archive=zip", "/int/?archive=tar", "/INT/h.txt", "/ialias", "/strip/int/h.txt", "/up/int/h.txt",
 			"/accel/int/h.txt", "/accel/int/", "/echo/x", "/accel/accel/int/h.txt", "/secret/pub/deep/d.txt", "/secret/f.txt", "/strip/secret/pub/deep/d.txt"},
 		"api": {"/api", "/api/", "/api/x", "/api/../api/y", "/API/z"},
+		// internal locations seen from their ancestors and through the file server's own lookups
+		"hide": {"/", "/?archive=zip", "/?archive=tar", "/int/", "/int/?archive=zip", "/int/h.txt", "/int/index.html", "/int", "/arc/", "/arc/?archive=zip",
+			"/arc/?archive=tar", "/arc/priv/", "/arc/priv/?archive=zip", "/arc/priv/p.txt", "/secret/f.txt", "/secret/f.txt.gz", "/secret/", "/secret/?archive=tar",
+			"/secret/pub/", "/secret/pub/?archive=zip", "/secret/pub/deep/", "/secret/pub/deep/?archive=tar", "/secret/pub/deep/x/", "/secret/pub/deep/x/y.txt", "/pub/", "/pub/a.txt"},
 	}
 	spell := func(t string) string {
 		q := ""
@@ -666,7 +890,8 @@ func c03Gen(r *Rand, tier string) []interface{} {
 		return t + q
 	}
 	protNames := []string{"auth-dir", "auth-dir-ex", "auth-slash", "internal", "auth-file", "auth-index", "auth-api", "auth-two",
-		"auth-nest3", "auth-nest3r", "auth-overlap", "auth-int", "auth-int", "auth-nest3", "auth-gz"}
+		"auth-nest3", "auth-nest3r", "auth-overlap", "auth-int", "auth-int", "auth-nest3", "auth-gz",
+		"int-index", "int-file", "int-gz", "int-deep", "int-two"}
 	credKinds := []string{"none", "none", "wrong", "right", "right", "right1", "right2"}
 	methods := []string{"GET", "GET", "GET", "HEAD", "POST", "OPTIONS"}
 	xreqs := []string{"", "", "", "", "", "/int/h.txt", "/secret/f.txt", "/secret/pub/deep/d.txt"}
@@ -689,12 +914,58 @@ func c03Gen(r *Rand, tier string) []interface{} {
 			group = "int"
 		} else if prot == "auth-api" {
 			group = "api"
+		} else if strings.HasPrefix(prot, "int-") || (prot == "auth-int" && r.Chance(50)) {
+			group = "hide"
 		}
 		for k := 0; k < 12; k++ {
 			in := &c03In{Kind: "site", Prot: prot, Extras: ex, Target: spell(r.Pick(targetsFor[group])),
 				Method: r.Pick(methods), Creds: r.Pick(credKinds),
 				AE: r.Pick([]string{"", "gzip", "gzip, br", "zstd"}), XReq: r.Pick(xreqs)}
 			out = append(out, in)
+			i++
+		}
+	}
+	// internal x browse: listings (HTML, JSON) and archives of the internal locations' ancestors
+	hideProts := []string{"internal", "internal", "auth-int", "int-index", "int-file", "int-deep", "int-two", "int-two", "int-gz"}
+	browses := []string{"browse / {\n servearchive zip tar\n}", "browse / {\n servearchive zip tar\n}", "browse /", "browse /arc {\n servearchive zip\n}", "browse /secret {\n servearchive tar\n}"}
+	neutral := []string{"gzip", "header / X-Test 1", "mime .txt text/plain", "errors", "index index.html h.txt", "index nothing.html"}
+	hideDirs := []string{"/", "/", "/int/", "/arc/", "/arc/", "/arc/priv/", "/secret/", "/secret/pub/", "/secret/pub/deep/", "/secret/pub/deep/x/", "/secret/sub/", "/pub/"}
+	for i := 0; i < nH; {
+		prot := r.Pick(hideProts)
+		ex := []string{r.Pick(browses)}
+		for _, e := range neutral {
+			if r.Chance(20) {
+				ex = append(ex, e)
+			}
+		}
+		ex = c03OneIndex(ex)
+		for k := 0; k < 10; k++ {
+			t := r.Pick(hideDirs)
+			if r.Chance(45) {
+				t += "?archive=" + r.Pick([]string{"zip", "tar"})
+			}
+			in := &c03In{Kind: "hide", Prot: prot, Extras: ex, Target: spell(t), Method: "GET", Creds: r.Pick([]string{"none", "none", "right", "wrong"}),
+				Accept: r.Pick([]string{"", "json"})}
+			out = append(out, in)
+			i++
+		}
+	}
+	// internal x the static file server alone: index pages, precompressed siblings, plain files
+	serveProts := []string{"internal", "int-index", "int-index", "int-file", "int-gz", "int-gz", "int-two", "int-deep"}
+	serveTargets := []string{"/int/", "/int/h.txt", "/int/index.html", "/int", "/", "/index.html", "/secret/f.txt", "/secret/f.txt", "/secret/", "/secret/index.html",
+		"/secret/f.txt.gz", "/arc/priv/p.txt", "/arc/priv/", "/arc/open.txt", "/pub/a.txt", "/pub/", "/secret/pub/deep/x/y.txt", "/secret/pub/deep/x/", "/nothing"}
+	for i := 0; i < nV; {
+		prot := r.Pick(serveProts)
+		var ex []string
+		for _, e := range neutral {
+			if r.Chance(25) {
+				ex = append(ex, e)
+			}
+		}
+		ex = c03OneIndex(ex)
+		for k := 0; k < 10; k++ {
+			out = append(out, &c03In{Kind: "serve", Prot: prot, Extras: ex, Target: spell(r.Pick(serveTargets)), Method: "GET", Creds: "none",
+				AE: r.Pick([]string{"", "gzip", "gzip", "gzip, br", "zstd", "br,gzip"})})
 			i++
 		}
 	}
@@ -768,6 +1039,22 @@ func dedupe(xs []string) []string {
 			seen[x] = true
 			out = append(out, x)
 		}
+	}
+	return out
+}
+
+// at most one `index` directive per site
+func c03OneIndex(xs []string) []string {
+	var out []string
+	b := false
+	for _, x := range xs {
+		if strings.HasPrefix(x, "index ") {
+			if b {
+				continue
+			}
+			b = true
+		}
+		out = append(out, x)
 	}
 	return out
 }
